@@ -1,7 +1,7 @@
 (* Properties/C02.v -- Encoder output is a conformant ISO/IEC 16022 data codeword stream (the parts that are theorems). *)
 From Coq Require Import Arith NArith List Bool.
 From DM Require Import Generated.Symbols Generated.ModeTables Spec.GF256 Spec.RSCode Model.Outcome Model.SymbolList Model.Planner Model.Enc
-  Model.RSEnc Model.GF Model.PlannerRun Model.Api Proofs.SymbolListProofs Proofs.RSEncProofs Proofs.RSEncLen Proofs.EncLocal Proofs.EncTop.
+  Model.RSEnc Model.GF Model.PlannerRun Model.Api Proofs.SymbolListProofs Proofs.RSEncProofs Proofs.RSEncLen Proofs.EncLocal Proofs.EncTop Spec.Stream16022 Proofs.EncAscii.
 Import ListNotations.
 Local Open Scope N_scope.
 
@@ -80,6 +80,16 @@ Proof.
   exists macro. eexists. rewrite C, C1, <- app_assoc. reflexivity.
 Qed.
 Print Assumptions C02_header.
+
+(* (v) full conformance in the first case: when the planner answers "stay in ASCII" (plan [(0, Ascii)]) the whole
+   stream IS the rendering of a legal script of Spec/Stream16022.v (ASCII values, greedy digit pairs, Upper Shift,
+   then the standard's padding), for every byte string and symbol list *)
+Theorem C02_ascii_plan_conformant : forall optimize_fn data symbols modes cw s,
+  optimize_fn data 0 symbols modes = Ok (Some [(0, Ascii)]) -> bytes_ok data = true ->
+  encode_data_internal optimize_fn data symbols None modes false false = Ok (cw, s) ->
+  exists npad, script_ok [SAscii (greedy data)] npad = true /\ cw = stream [SAscii (greedy data)] npad.
+Proof. intros o d sy m cw s HP OK H. exact (proj1 (ascii_plan_roundtrip o d sy m cw s HP OK H)). Qed.
+Print Assumptions C02_ascii_plan_conformant.
 
 (* NOT a theorem here: that the part between header and padding is a legal ISO/IEC 16022 mode stream that decodes
    to the input.  It is decided per case by the independent reference decoder (tools/props/refdec.py) run on the
